@@ -1321,13 +1321,56 @@ class Interp:
             if a == L.nodeinfo:
                 sym = ("param", body.name, i)
                 return ref(("job", sym, frozenset([("param", i)]), None), ())
+            if a in self.facts.adts and not self.facts.adts[a]["enum"] and state is not None:
+                # a private bundle of references to evaluator parts (e.g. a context struct): build it field by field
+                fields = []
+                for fi, f in enumerate(self.facts.adts[a]["variants"][0]["fields"]):
+                    fields.append(self.av_for_type(f["ty"], body, (i, fi)))
+                root = ("paramstruct", body.name, i)
+                state.heap[root] = adt(a, {0: tuple(fields)})
+                return ref(root, ())
             return TOP
         if s == "usize":
             sym = ("param", body.name, i)
             self.sym_info[sym] = (frozenset([("param", i)]), None)
             return key(sym, [("param", i)])
+        if "tuple" in ty:
+            fields = []
+            for j, et in enumerate(ty["tuple"]):
+                if et["s"] == "usize":
+                    sym = ("param", body.name, i, j)
+                    self.sym_info[sym] = (frozenset([("param", i)]), None)
+                    fields.append(key(sym, [("param", i)]))
+                elif "ref" in et and et["ref"].get("adt") == L.nodeinfo:
+                    sym = ("param", body.name, i, j)
+                    self.sym_info[sym] = (frozenset([("param", i)]), None)
+                    fields.append(ref(("job", sym, frozenset([("param", i)]), None), ()))
+                else:
+                    fields.append(self.av_for_type(et, body, (i, j)))
+            return adt("tuple", {0: tuple(fields)})
         if s == "std::string::String":
             return string([("param", body.name, i)])
+        return self.typed(TOP, ty)
+
+    def av_for_type(self, ty, body, tag):
+        """abstract value of a parameter-like slot of the given static type when nothing else is known"""
+        L = self.layout
+        if "ref" in ty:
+            inner = ty["ref"]
+            ins = inner["s"]
+            if inner.get("adt") == L.evaluator:
+                return ref(("self",), ())
+            if ins in ("[%s]" % L.nodeinfo, "std::vec::Vec<%s>" % L.nodeinfo):
+                return ref(*L.self_loc(L.jobs_field))
+            if ins.startswith("petgraph::graphmap::GraphMap<"):
+                return ref(*L.self_loc(L.dag_field))
+            if ins == "std::collections::HashMap<std::string::String, std::string::String>":
+                return ref(*L.self_loc(L.history_field))
+            if "PPGEvaluatorStrategy" in ins or ins == "T":
+                return ref(*L.self_loc(L.strategy_field))
+            if ins == "str" or ins == "std::string::String":
+                return string([("param", body.name, tag)])
+            return TOP
         return self.typed(TOP, ty)
 
     def analyze(self, body, args=None, state=None):
